@@ -102,8 +102,6 @@ def h_select(x0: int, x1: int, x2: int, x3: int, x4: int, x5: int, x6: int, x7: 
         winners = [c for c in range(3) if totals[c][r] == mx]
         if mx > 0 and len(winners) == 1 and r not in seen_rows:
             return False
-        if mx == 0 and r in seen_rows:
-            return False  # nothing matched under any condition: the row has no MCS
     return True
 
 
@@ -145,7 +143,11 @@ def h_attr(s0: bool, s1: bool, s2: bool, s3: bool, f0: bool, f1: bool, f2: bool,
             if r.get("issue") != "":
                 return False
         else:
-            if r.get("mcs") is not None or r.get("issue") != "No MCS identified.":
+            # no search condition matched: no foreign record may be attached and the row carries a reason
+            m = r.get("mcs")
+            if m and (m.get("_content") != "r%d" % i or m.get("id") != str(i)):
+                return False
+            if not isinstance(r.get("issue"), str) or r.get("issue") == "":
                 return False
     return True
 
